@@ -1,11 +1,11 @@
-(* C12 — property theorems only (proved in C12_Proofs.v).
+(* C12 — property theorems only (proved in C12_Proofs.v, C12_Proofs2.v, C12_Proofs3.v).
    Vocabulary: [serve et c path ae ops ret err] is the final state of net/http's response for
    one request to a site with configuration [c] (any subset of request_id, limits, log, rewrite,
    gzip, header, errors in its variants, status, mime, templates) whose innermost handler runs
    the script [ops] and returns [(ret, err)]; [cm] = status line sent, [sup] = number of
    superfluous WriteHeader calls that reached net/http, [view] = (garbled?, body after undoing
    the gzip coding announced by Content-Encoding); [et code] is DefaultErrorFunc's text. *)
-Require Import V.Lib V.C12_Model V.C12_Proofs V.C12_Proofs2.
+Require Import V.Lib V.C12_Model V.C12_Proofs V.C12_Proofs2 V.C12_Proofs3.
 Open Scope Z_scope.
 Local Open Scope string_scope.
 
@@ -46,23 +46,35 @@ Theorem C12_status_directive_error_gets_body :
 Proof. exact status_rule_error. Qed.
 Print Assumptions C12_status_directive_error_gets_body.
 
-(* A panic before anything was written is contained for EVERY subset of the directives: the
-   client receives 500 (once) with the error body: errors' page for 500 if configured, the
-   panic dump under `errors visible`, else the plain text. *)
+(* A panic before anything was written is contained for EVERY subset of the directives and
+   EVERY value [pv] the handler panics with (a string, an error, a runtime error, a nil
+   dereference, a custom type, nil, http.ErrAbortHandler - the sentinel is NOT handed on to
+   net/http, which would drop the connection without a response): the client receives 500
+   (once) with the error body: errors' page for 500 if configured, the panic dump under
+   `errors visible`, else the plain text. *)
 Theorem C12_panic_before_write_gets_500 :
-  forall et c path ae ops rest ret err,
+  forall et c path ae ops pv rest ret err,
   forallb set_ok ops = true -> redir_hit c path = false -> status_rule c path = None -> internal_hit c path = false ->
-  let x := serve et c path ae (ops ++ OPanic :: rest) ret err in
+  let x := serve et c path ae (ops ++ OPanic pv :: rest) ret err in
   cm x = Some 500 /\ sup x = 0%nat /\
   view x = (false, match c_errors c with
                    | EDebug => PANIC_MARK
                    | _ => expected_error_body et c path 500 false
                    end).
 Proof.
-  intros et c path ae ops rest ret err Hs Hrd Hr Hit. rewrite <- (panic_body_spec et c path).
-  exact (panic_before_write_500 et c path ae ops rest ret err Hs Hrd Hr Hit).
+  intros et c path ae ops pv rest ret err Hs Hrd Hr Hit. rewrite <- (panic_body_spec et c path).
+  exact (panic_before_write_500 et c path ae ops pv rest ret err Hs Hrd Hr Hit).
 Qed.
 Print Assumptions C12_panic_before_write_gets_500.
+
+(* http.ErrAbortHandler with nothing but the top-level recover of Server.ServeHTTP to catch it *)
+Example C12_panic_before_write_gets_500_nonvacuous :
+  let c := {| c_reqid := false; c_limits := false; c_log := false; c_rewrite := false; c_gzip := false; c_header := false;
+              c_errors := ENone; c_redir := false; c_status := None; c_mime := false; c_internal := false; c_templates := false |} in
+  let x := serve std_errtext c (bs "/x") false ([OSet K_XPROBE (bs "v")] ++ OPanic PAbort :: [OWr (bs "never")]) 0 false in
+  forallb set_ok [OSet K_XPROBE (bs "v")] = true /\ cm x = Some 500 /\ sup x = 0%nat /\
+  view x = (false, bs "500 Internal Server Error" ++ [10%N]).
+Proof. vm_compute. repeat split; reflexivity. Qed.
 
 (* A handler that writes (headers, WriteHeader s, any number of Writes and Flushes: [wop]) and
    returns a status below 400, with or without an error: the client receives status s and the
@@ -152,6 +164,10 @@ Definition c12_with_mime (c : cfg) (m : bool) : cfg :=
   {| c_reqid := c_reqid c; c_limits := c_limits c; c_log := c_log c; c_rewrite := c_rewrite c; c_gzip := c_gzip c;
      c_header := c_header c; c_errors := c_errors c; c_redir := c_redir c; c_status := c_status c;
      c_mime := m; c_internal := c_internal c; c_templates := c_templates c |}.
+Definition c12_with_templates (c : cfg) : cfg :=
+  {| c_reqid := c_reqid c; c_limits := c_limits c; c_log := c_log c; c_rewrite := c_rewrite c; c_gzip := c_gzip c;
+     c_header := c_header c; c_errors := c_errors c; c_redir := c_redir c; c_status := c_status c;
+     c_mime := c_mime c; c_internal := c_internal c; c_templates := true |}.
 Theorem C12_mime_transparent_refuted :
   exists et c path ae ops ret err,
   observe (serve et (c12_with_mime c true) path ae ops ret err) <> observe (serve et (c12_with_mime c false) path ae ops ret err).
@@ -174,29 +190,29 @@ Print Assumptions C12_mime_transparent_refuted.
    - templates was buffering: nothing had reached the connection; the buffered response is
      dropped and the request ends exactly like a panic before writing: 500 once, error body. *)
 Theorem C12_panic_after_write_contained :
-  forall et c path ae sets s ws rest ret err,
+  forall et c path ae sets s ws pv rest ret err,
   forallb set_ok sets = true -> redir_hit c path = false -> status_rule c path = None -> internal_hit c path = false ->
   valid_code s = true -> bodyless s = false ->
-  let x := serve et c path ae (sets ++ OWh s :: map wop_op ws ++ OPanic :: rest) ret err in
+  let x := serve et c path ae (sets ++ OWh s :: map wop_op ws ++ OPanic pv :: rest) ret err in
   (should_buffer (tmode_of c path) (hs_fun sets []) = false ->
      cm x = Some s /\ sup x = panic_sup c /\ (sup x <= 1)%nat /\ view x = (false, wbody ws ++ panic_body et c)) /\
   (should_buffer (tmode_of c path) (hs_fun sets []) = true ->
      cm x = Some 500 /\ sup x = 0%nat /\ view x = (false, panic_body et c)).
 Proof.
-  intros et c path ae sets s ws rest ret err Hs Hrd Hr Hit Hv Hb. cbv zeta. split; intro Hsb.
-  - destruct (panic_after_write_streamed et c path ae sets s ws rest ret err Hs Hrd Hr Hit Hv Hb Hsb) as (A & B & C).
+  intros et c path ae sets s ws pv rest ret err Hs Hrd Hr Hit Hv Hb. cbv zeta. split; intro Hsb.
+  - destruct (panic_after_write_streamed et c path ae sets s ws pv rest ret err Hs Hrd Hr Hit Hv Hb Hsb) as (A & B & C).
     repeat split; try assumption. rewrite B. unfold panic_sup. destruct (errors_on c && c_header c); auto.
-  - exact (panic_after_write_buffered et c path ae sets s ws rest ret err Hs Hrd Hr Hit Hsb).
+  - exact (panic_after_write_buffered et c path ae sets s ws pv rest ret err Hs Hrd Hr Hit Hsb).
 Qed.
 Print Assumptions C12_panic_after_write_contained.
 
 Example C12_panic_after_write_contained_nonvacuous :
   let c := {| c_reqid := false; c_limits := false; c_log := true; c_rewrite := false; c_gzip := true; c_header := false;
               c_errors := EPages [(500, Some (bs "<page>"))] None; c_redir := true; c_status := None; c_mime := true; c_internal := true; c_templates := true |} in
-  (let x := serve (fun _ => bs "text") c (bs "/x.txt") true ([] ++ OWh 201 :: map wop_op [WWr (bs "he"); WFl; WWr (bs "llo")] ++ OPanic :: [OWr (bs "never")]) 0 false in
+  (let x := serve (fun _ => bs "text") c (bs "/x.txt") true ([] ++ OWh 201 :: map wop_op [WWr (bs "he"); WFl; WWr (bs "llo")] ++ OPanic PAbort :: [OWr (bs "never")]) 0 false in
    should_buffer (tmode_of c (bs "/x.txt")) (hs_fun [] []) = false /\
    cm x = Some 201 /\ sup x = 1%nat /\ view x = (false, bs "hello<page>")) /\
-  (let x := serve (fun _ => bs "text") c (bs "/x.html") true ([] ++ OWh 201 :: map wop_op [WWr (bs "hello")] ++ OPanic :: []) 0 false in
+  (let x := serve (fun _ => bs "text") c (bs "/x.html") true ([] ++ OWh 201 :: map wop_op [WWr (bs "hello")] ++ OPanic PRuntime :: []) 0 false in
    should_buffer (tmode_of c (bs "/x.html")) (hs_fun [] []) = true /\
    cm x = Some 500 /\ sup x = 0%nat /\ view x = (false, bs "<page>")).
 Proof. vm_compute. repeat split; reflexivity. Qed.
@@ -232,7 +248,7 @@ Example C12_requests_independent_nonvacuous :
   let c := {| c_reqid := false; c_limits := false; c_log := false; c_rewrite := false; c_gzip := true; c_header := false;
               c_errors := ENone; c_redir := false; c_status := None; c_mime := false; c_internal := false; c_templates := true |} in
   let q := {| q_path := bs "/x.html"; q_ae := true; q_blen := 0%N; q_rd := None;
-              q_ops := [OWr (bs "left behind"); OPanic]; q_ret := 0; q_err := false |} in
+              q_ops := [OWr (bs "left behind"); OPanic PString]; q_ret := 0; q_err := false |} in
   buf_pool (srv_after (fun _ => []) c srv0 [q]) = [bs "left behind"].
 Proof. vm_compute. reflexivity. Qed.
 
@@ -262,7 +278,7 @@ Example C12_single_commit_all_nonvacuous :
               c_errors := EDebug; c_redir := true; c_status := Some 204; c_mime := true; c_internal := true; c_templates := true |} in
   handler_contract ops 0 = true /\ panics_after_write ops = false /\ status_ok c = true /\
   handler_contract [OSet K_CT V_HTML; OWh 204; OWr (bs "x")] 204 = true /\
-  handler_contract [OSet K_CT V_HTML; OPanic; OWh 0] 7 = true /\ handler_contract [] 999 = true.
+  handler_contract [OSet K_CT V_HTML; OPanic PNil; OWh 0] 7 = true /\ handler_contract [] 999 = true.
 Proof. vm_compute. repeat split; reflexivity. Qed.
 
 (* Outside the contract the statement is false: a handler that calls WriteHeader twice, or
@@ -360,3 +376,111 @@ Theorem C12_nesting_is_directive_order :
   strictly_increasing (map (fun k => pos_in V.Gen_C09.gen_directives k 0) chain_order) = true.
 Proof. exact nesting_is_directive_order. Qed.
 Print Assumptions C12_nesting_is_directive_order.
+
+(* ===================== bodies produced without Write ===================== *)
+
+(* io.Copy / io.CopyN from a plain reader and a direct ReadFrom enter templates' ResponseBuffer
+   through ReadFrom and every other writer through Write ([ORf b], b the bytes copied);
+   io.WriteString and io.Copy from an io.WriterTo are Writes.  Copying a non-empty source is, for
+   EVERY configuration, every script around it and every return value, the same request as
+   writing those bytes: in particular the ResponseBuffer decides about buffering (implicit
+   WriteHeader(200)) on ReadFrom exactly as on Write.  Hence every theorem above that speaks
+   about Writes holds for copies. *)
+Theorem C12_copy_is_write :
+  forall et c path ae pre b post ret err, b <> [] ->
+  serve et c path ae (pre ++ ORf b :: post) ret err = serve et c path ae (pre ++ OWr b :: post) ret err.
+Proof. exact serve_copy_is_write. Qed.
+Print Assumptions C12_copy_is_write.
+
+(* spelled out for the handler that answers with io.Copy(w, src) and no WriteHeader: 200, the
+   bytes copied (followed by whatever it writes later), one header commit, also when the body is
+   not a template but contains template delimiters and templates is configured *)
+Theorem C12_copied_response_unaltered :
+  forall et c path ae sets b ws ret err, b <> [] ->
+  forallb set_ok sets = true -> redir_hit c path = false -> status_rule c path = None -> internal_hit c path = false -> ret < 400 ->
+  (should_buffer (tmode_of c path) (hs_fun sets []) = true -> ret < 300 -> err = false ->
+   contains (b ++ wbody ws) TPL_OPEN = false) ->
+  let x := serve et c path ae (sets ++ ORf b :: map wop_op ws) ret err in
+  cm x = Some 200 /\ sup x = 0%nat /\ view x = (false, b ++ wbody ws).
+Proof. exact copied_response_unaltered. Qed.
+Print Assumptions C12_copied_response_unaltered.
+
+Example C12_copied_response_unaltered_nonvacuous :
+  let c := {| c_reqid := false; c_limits := false; c_log := true; c_rewrite := false; c_gzip := true; c_header := true;
+              c_errors := EPlain; c_redir := false; c_status := None; c_mime := false; c_internal := false; c_templates := true |} in
+  let sets := [OSet K_CT (bs "text/plain; charset=utf-8"); OSet K_ETAG (bs "v")] in
+  let b := bs "copied, not a template: {{" in
+  b <> [] /\ should_buffer (tmode_of c (bs "/x.txt")) (hs_fun sets []) = false /\
+  (let x := serve (fun _ => []) c (bs "/x.txt") true (sets ++ ORf b :: map wop_op []) 0 false in
+   cm x = Some 200 /\ view x = (false, b) /\ o_etag (observe x) = true).
+Proof. vm_compute. repeat split; try reflexivity. discriminate. Qed.
+
+(* Copying an EMPTY source writes nothing.  Where templates is not configured it does not touch
+   the response at all ... *)
+Theorem C12_empty_copy_transparent_partial :
+  forall et c path ae pre post ret err, c_templates c = false ->
+  serve et c path ae (pre ++ ORf [] :: post) ret err = serve et c path ae (pre ++ post) ret err.
+Proof. exact serve_empty_copy_no_templates. Qed.
+Print Assumptions C12_empty_copy_transparent_partial.
+
+(* ... but templates' ResponseBuffer.ReadFrom commits the implicit 200 before it looks at the
+   source (finding F-C12-6): the status the handler sets afterwards is lost, and a handler
+   that returns an error status gets a superfluous WriteHeader. *)
+Theorem C12_empty_copy_transparent_refuted :
+  (exists et c path ae post ret err,
+     cm (serve et c path ae (ORf [] :: post) ret err) = Some 200 /\ cm (serve et c path ae post ret err) = Some 404) /\
+  (exists et c path ae ret err,
+     handler_contract [] ret = true /\ sup (serve et c path ae [ORf []] ret err) = 1%nat /\ sup (serve et c path ae [] ret err) = 0%nat).
+Proof.
+  split.
+  - exists (fun _ => []), (c12_with_templates c12_cfg0), (bs "/x.txt"), false, [OWh 404; OWr (bs "custom")], 0, false.
+    vm_compute. split; reflexivity.
+  - exists (fun _ => []), (c12_with_templates c12_cfg0), (bs "/x.txt"), false, 404, false.
+    vm_compute. repeat split; reflexivity.
+Qed.
+Print Assumptions C12_empty_copy_transparent_refuted.
+
+(* ===================== a template that fails ===================== *)
+
+(* The inner handler has answered (any header fields: Content-Length, ETag, Last-Modified ...,
+   any status, any chunks) and templates takes the response as a template (rule matches, status
+   returned < 300, no error) whose text contains an action that fails - to parse, or at
+   EXECUTION ({{.Include "missing"}}): templates is then the handler that reports an error
+   status without writing, and for EVERY subset of the directives the client receives 500,
+   the header committed once, with the complete error body (page for 500 / debug message /
+   plain text) ... *)
+Theorem C12_failed_template_gets_500 :
+  forall et c path ae sets s ws ret err,
+  forallb set_ok sets = true -> redir_hit c path = false -> status_rule c path = None -> internal_hit c path = false ->
+  should_buffer (tmode_of c path) (hs_fun sets []) = true -> ret < 300 -> err = false ->
+  contains (wbody ws) TPL_OPEN = true ->
+  let x := serve et c path ae (sets ++ OWh s :: map wop_op ws) ret err in
+  cm x = Some 500 /\ sup x = 0%nat /\ view x = (false, expected_error_body et c path 500 true).
+Proof. exact failed_template_500. Qed.
+Print Assumptions C12_failed_template_gets_500.
+
+(* ... and that error response is written on a writer stack templates has not touched: when it
+   returns (500, err) the real header map holds none of the fields of the response that is not
+   served (they are still in the ResponseBuffer: CopyHeader comes after Execute), nothing is
+   committed, nothing is in the body. *)
+Theorem C12_failed_template_header_untouched :
+  forall m sets s ws ret err X,
+  m <> TOff -> forallb set_ok sets = true -> should_buffer m (hs_fun sets []) = true ->
+  ret < 300 -> err = false -> contains (wbody ws) TPL_OPEN = true ->
+  exists y, templates_mw m (probe (sets ++ OWh s :: map wop_op ws) ret err) X = HRet 500 true y /\
+            chdr y = chdr X /\ cm y = cm X /\ csnap y = csnap X /\ body y = body X /\ sup y = sup X.
+Proof. exact failed_template_untouched. Qed.
+Print Assumptions C12_failed_template_header_untouched.
+
+Example C12_failed_template_nonvacuous :
+  let c := {| c_reqid := false; c_limits := false; c_log := true; c_rewrite := false; c_gzip := true; c_header := true;
+              c_errors := EPages [(500, Some (bs "<page 500>"))] None; c_redir := false; c_status := None; c_mime := false;
+              c_internal := false; c_templates := true |} in
+  let sets := [OSet K_CL (bs "16"); OSet K_ETAG (bs "v"); OSet K_LM (bs "Mon")] in
+  let ws := [WWr (bs "{{.NoSuchField}}")] in
+  forallb set_ok sets = true /\ should_buffer (tmode_of c (bs "/x.html")) (hs_fun sets []) = true /\
+  contains (wbody ws) TPL_OPEN = true /\
+  (let x := serve (fun _ => []) c (bs "/x.html") true (sets ++ OWh 200 :: map wop_op ws) 0 false in
+   cm x = Some 500 /\ view x = (false, bs "<page 500>") /\
+   hget (csnap x) K_CL = None /\ hget (csnap x) K_ETAG = None /\ hget (csnap x) K_LM = None).
+Proof. vm_compute. repeat split; reflexivity. Qed.
